@@ -985,20 +985,53 @@ func baseEncoding(base string) (data []byte, lenOffs []int, mode string) {
 		}
 		return d, []int{0}, "handshake"
 	case strings.HasPrefix(base, "deep:"):
-		// a valid envelope whose message nests PipeResults n levels deep (built by the real encoder)
+		// an envelope whose message nests PipeResults n levels deep.  The real encoder refuses to nest deeper than its
+		// limit, so the bytes are spliced by hand from what it produces for one level: W(k+1) = len32 ++ prefix ++ W(k)
+		// ++ suffix ++ name, with prefix / suffix / name taken from the real encoding of a PipeResult around W(0)
 		n := 0
 		fmt.Sscan(strings.TrimPrefix(base, "deep:"), &n)
-		var m vivid.Message = &vivid.OnLaunch{}
-		for i := 0; i < n; i++ {
-			m = &vivid.PipeResult{Id: "p", Message: m}
+		enc := func(m vivid.Message) []byte {
+			w := messages.NewWriter()
+			if err := w.WriteMessage(m, nil); err != nil {
+				return nil
+			}
+			return append([]byte{}, w.Bytes()...)
+		}
+		w0 := enc(&vivid.OnLaunch{})
+		w1 := enc(&vivid.PipeResult{Id: "p", Message: &vivid.OnLaunch{}})
+		if w0 == nil || len(w1) < 8 {
+			return nil, nil, ""
+		}
+		bodyLen := int(binary.BigEndian.Uint32(w1))
+		idx := bytes.Index(w1[4:4+bodyLen], w0)
+		if idx < 0 || 4+bodyLen > len(w1) {
+			return nil, nil, ""
+		}
+		prefix := w1[4 : 4+idx]
+		suffix := w1[4+idx+len(w0) : 4+bodyLen]
+		name := w1[4+bodyLen:]
+		wk := w0
+		for k := 0; k < n; k++ {
+			next := make([]byte, 4, 4+len(prefix)+len(wk)+len(suffix)+len(name))
+			binary.BigEndian.PutUint32(next, uint32(len(prefix)+len(wk)+len(suffix)))
+			next = append(next, prefix...)
+			next = append(next, wk...)
+			next = append(next, suffix...)
+			next = append(next, name...)
+			wk = next
 		}
 		snd, _ := actor.NewRef("10.1.1.1:7000", "/s")
 		rcv, _ := actor.NewRef("10.1.1.2:7000", "/r")
-		d, err := serialize.EncodeEnvelopWithRemoting(nil, mailbox.NewEnvelop(false, snd, rcv, m))
+		e1, err := serialize.EncodeEnvelopWithRemoting(nil, mailbox.NewEnvelop(false, snd, rcv, &vivid.PipeResult{Id: "p", Message: &vivid.OnLaunch{}}))
 		if err != nil {
 			return nil, nil, ""
 		}
-		return append([]byte{}, d...), []int{0}, "envelope"
+		at := bytes.Index(e1, w1)
+		if at < 0 {
+			return nil, nil, ""
+		}
+		d := append(append(append([]byte{}, e1[:at]...), wk...), e1[at+len(w1):]...)
+		return d, []int{0}, "envelope"
 	case base == "view":
 		v := &cluster.ClusterView{ViewID: "v", Members: map[string]*cluster.NodeState{"a": {ID: "a", Address: "a:1", Generation: 1, LogicalClock: 1, Metadata: map[string]string{"k": "v"}}}, VersionVector: cluster.NewVersionVector().MustIncrement("a")}
 		w := messages.NewWriter()
@@ -1136,6 +1169,9 @@ func runTotCase(tc totCase) (res totResult) {
 		if e2 := messages.NewReader(data).Read(target.Interface()); e2 != nil || !semEqual(want, target.Elem()) {
 			res.After = 0
 		}
+	}
+	if tc.Fault == "none" {
+		res.After = 1 // the input itself is the case (it may be one the decoder has to refuse): there is no "valid input afterwards"
 	}
 	runtime.ReadMemStats(&ms1)
 	res.Alloc = int64(ms1.TotalAlloc - ms0.TotalAlloc)
@@ -1408,7 +1444,7 @@ func checkC13(c *core.Ctx) {
 		}
 	}
 	// valid input, deeply nested: decoding must not cost memory out of proportion (one copy of the rest per level is quadratic)
-	for _, n := range core.Pick(c, []int{200, 3000}, []int{200, 3000, 20000}) {
+	for _, n := range core.Pick(c, []int{5, 40, 3000}, []int{5, 40, 3000, 20000}) {
 		cases = append(cases, totCase{ID: fmt.Sprintf("deep:%d|none", n), Group: "fault", Base: fmt.Sprintf("deep:%d", n), Fault: "none"})
 	}
 	for _, reg := range messages.VerifRegisteredMessages() {
